@@ -6,6 +6,5 @@ export CARGO_NET_OFFLINE=true
 mkdir -p build evidence replay
 ( cd coq && ./build.sh ) > build/coq-build.log 2>&1 || { tail -50 build/coq-build.log; echo "ERROR coq build failed"; exit 1; }
 ( cd coq && ./build_model.sh ) || { echo "ERROR model build failed"; exit 1; }
-cp -f /repo/Cargo.lock harness/Cargo.lock
-( cd harness && CARGO_TARGET_DIR=../build/cargo RUSTFLAGS="--cfg apollo_rs_verif" cargo build --release --offline ) > build/cargo-build.log 2>&1 || { tail -50 build/cargo-build.log; echo "ERROR harness build failed"; exit 1; }
+python3 -c "import sys; sys.path.insert(0,'driver'); import common; common.build_impl()" || { echo "ERROR harness build failed"; exit 1; }
 echo "setup ok"
